@@ -83,6 +83,8 @@ var sites = []site{
 	{"enterNewRound_guard", "gemmill/consensus/pbft/state.go", "enterNewRound", "if", `cs\.Height\W+height`, "", "C04"},
 	{"enterPropose_guard", "gemmill/consensus/pbft/state.go", "enterPropose", "if", `cs\.Height\W+height`, "", "C04"},
 	{"enterPrevote_guard", "gemmill/consensus/pbft/state.go", "enterPrevote", "if", `cs\.Height\W+height`, "", "C04"},
+	{"doPrevote_lock", "gemmill/consensus/pbft/state.go", "defaultDoPrevote", "tree", "", `^cs\.signAddVote\(types\.VoteTypePrevote, cs\.LockedBlock\.Hash\(\)`, "C04"},
+	{"doPrevote_block", "gemmill/consensus/pbft/state.go", "defaultDoPrevote", "tree", "", `^cs\.signAddVote\(types\.VoteTypePrevote, cs\.ProposalBlock\.Hash\(\)`, "C04"},
 	{"enterPrevoteWait_guard", "gemmill/consensus/pbft/state.go", "enterPrevoteWait", "if", `cs\.Height\W+height`, "", "C04"},
 	{"enterPrecommit_guard", "gemmill/consensus/pbft/state.go", "enterPrecommit", "if", `cs\.Height\W+height`, "", "C04"},
 	{"enterPrecommitWait_guard", "gemmill/consensus/pbft/state.go", "enterPrecommitWait", "if", `cs\.Height\W+height`, "", "C04"},
